@@ -1127,7 +1127,21 @@ def run_test(ctx: FunctionContext) -> TestResult:
                 query=ex.path.to_smt2(args),
                 solving_ctx=ctx.solving_ctx,
             )
-            solver_output = solve_low_level(path_ctx)
+            try:
+                solver_output = solve_low_level(path_ctx)
+            except ShutdownError:
+                # early exit was triggered while this path was being confirmed
+                if args.debug:
+                    print("aborting path exploration, executor has been shutdown")
+                break
+            except Exception as e:
+                # a failed solver call cannot refute the stuck path: treat it like
+                # _get_solver_output does for assertion queries (result "err")
+                if not is_benign_solving_error(e):
+                    error(f"encountered exception while checking a stuck path: {e!r}")
+                solver_output = SolverOutput.from_error(
+                    e, path_id=path_id, query_file=str(path_ctx.dump_file)
+                )
             if solver_output.result != unsat:
                 stuck.append((path_id, ex, ex.context.get_stuck_reason()))
                 if args.print_blocked_states:
